@@ -30,13 +30,9 @@ Proof.
   - apply NoDup_filter. exact IH.
 Qed.
 
-(* What smgen's table model does NOW (Gen/TTModelSrc.v is regenerated from its source on every run): these two
-   equations stop compiling if the signature key goes back to the concatenated string or if transitionsperstate
-   stops listing the states without outgoing rows -- and with them every proof of C08, C09 and C10 that uses them. *)
-Lemma actionsignatures_pair : forall t,
-  actionsignatures t = dedup_pair (map (fun r => (r_act r, r_ev r)) (filter (fun r => negb (is_none (r_act r))) t)).
-Proof. reflexivity. Qed.
-
+(* What smgen's table model does NOW (Gen/TTModelSrc.v is regenerated from its source on every run): this
+   equation stops compiling if transitionsperstate stops listing the states without outgoing rows -- and with it every
+   proof of C08, C09 and C10 that uses it (the signature key, which C08 does not depend on: Proofs/TTableSigProofs.v). *)
 Lemma tps_states_all : forall t,
   tps_states t = (src_states t ++ filter (fun s => negb (mem s (src_states t))) (states t))%list.
 Proof. reflexivity. Qed.
